@@ -17,11 +17,11 @@ type Received struct {
 // Peer is a scripted counterparty / third party: it speaks the wire protocol
 // through the bus but its behaviour is decided by the scenario.
 type Peer struct {
-	w    *World
-	Name string
-	ID   string
-	Key  *btcec.PrivateKey
-	Inbox []Received
+	w            *World
+	Name         string
+	ID           string
+	Key          *btcec.PrivateKey
+	Inbox        []Received
 	PaidInvoices []EvPaid
 	// OnMsg, if set, is called for every message delivered to the peer.
 	OnMsg func(p *Peer, m Received)
